@@ -479,6 +479,8 @@ class Repo:
                 if bname in ("Generic", "Protocol", "object"):
                     continue
                 bfq = bname if "." in bname else f"{mod}.{bname}"
+                if self.typeshed.cls(bfq) is None and self.typeshed.cls(f"typing.{bname.rsplit('.', 1)[-1]}") is not None:
+                    bfq = f"typing.{bname.rsplit('.', 1)[-1]}"  # ABCs imported into builtins.pyi / io.pyi from typing
                 rb.append(_ALIASES.get(bfq, bfq))
             b = BuiltinClass(fq, names, rb)
         self._builtin_cache[fq] = b
